@@ -1,0 +1,36 @@
+//go:build verif && testnet && unittest
+
+package config
+
+// Verification-only configuration "verifnet" (build tags verif+testnet+unittest, a combination that selects
+// none of the shipped configuration files). It is the unittest configuration with a minimum difficulty at
+// which the fork-choice weights (unstaked 1/2, side blocks 2/3) are distinct integers, a short retarget
+// window, a short stake lock and the hard forks at heights 1 and 3, so that short generated histories
+// exercise every rule. Nothing outside the verification harness builds with these tags.
+
+const P2P_BIND_PORT = 16490
+const RPC_BIND_PORT = 16491
+const STRATUM_BIND_PORT = 16492
+const NETWORK_ID uint64 = 0x7e57 // Network identifier. It MUST be unique for each chain
+
+const NETWORK_NAME = "verifnet"
+
+const MIN_DIFFICULTY = 4
+const DIFFICULTY_N = 4
+
+// GENESIS BLOCK INFO
+const GENESIS_ADDRESS = "vo3yexhnu89af4aai83uou17dupb79c3gxng1q"
+const GENESIS_TIMESTAMP = 0
+const BLOCK_REWARD_FEE_PERCENT = 10
+const TEAM_STAKE_PUBKEY = "3959a30cb83649dd38389dd6717cbadab6ceb92cd9e4c4352abfcf168bbf592e"
+
+var SEED_NODES = []string{"127.0.0.1"}
+
+// PROOF OF STAKE
+const MIN_STAKE_AMOUNT = 1 * COIN
+const REGISTER_DELEGATE_BURN = 1 * COIN
+const STAKE_UNLOCK_TIME = 3 // staked funds unlock after 3 blocks
+
+// HARD-FORKS
+const HARDFORK_V2_HEIGHT = 1
+const HARDFORK_V3_HEIGHT = 3
